@@ -203,6 +203,23 @@ func (e *SpecEnv) eval(x SpecExpr) Val {
 		return e.evalIdent(x.Name)
 	case *SUnary:
 		if x.Op == "&" {
+			// address of a field of the object a pointer designates: &p.f
+			if sel, isSel := x.X.(*SSelector); isSel {
+				base := e.eval(sel.X)
+				if pt, ok := base.T.Underlying().(*types.Pointer); ok {
+					if st, ok := pt.Elem().Underlying().(*types.Struct); ok {
+						for fi := 0; fi < st.NumFields(); fi++ {
+							if st.Field(fi).Name() == sel.Sel {
+								bp := c.ptrOf(base)
+								ft := st.Field(fi).Type()
+								np := &Ptr{Root: bp.Root, Obj: bp.Obj, ArrElem: bp.ArrElem, Path: append(append([]PathEl{}, bp.Path...), PathEl{Field: fi, T: ft})}
+								return Val{T: types.NewPointer(ft), P: np}
+							}
+						}
+					}
+				}
+				e.fail("&%s: not a field of a pointed-to struct", sel.Sel)
+			}
 			// address of an addressable local variable (one whose address the code takes)
 			id, isId := x.X.(*SIdent)
 			if !isId || e.f == nil {
@@ -865,9 +882,9 @@ func (e *SpecEnv) evalCall(x *SCall) Val {
 				bt = fmt.Sprintf("(mod %s 256)", b.S)
 			}
 			return Val{T: types.Typ[types.String], S: c.strOfByte(bt)}
-		case "first", "second", "third":
+		case "first", "second", "third", "fourth":
 			v := e.eval(x.Args[0])
-			i := map[string]int{"first": 0, "second": 1, "third": 2}[id.Name]
+			i := map[string]int{"first": 0, "second": 1, "third": 2, "fourth": 3}[id.Name]
 			if v.Tup == nil || i >= len(v.Tup) {
 				e.fail("%s() applied to a value that is not a tuple of at least %d components", id.Name, i+1)
 			}
